@@ -271,7 +271,36 @@ def case_argtype(acc, route, scheme, argname):
     return got
 
 
-CASES = {"port": case_port, "invalid_text": case_invalid_text, "argtype": case_argtype, "lenient_text": case_lenient_text}
+EQUAL_KEYS = {"True": 1, "False": 0, "1.0": 1, "8080.0": 8080}
+
+
+def case_argtype_after(acc, scheme, argname):
+    """with_port(<bad value>) right after with_port(<the int it compares equal to>) on the same URL: rejecting must not depend on what
+    was accepted before (True == 1, 8080.0 == 8080 as dictionary/cache keys)."""
+    acc.evals += 1
+    acc.nontrivial += 1
+    bad = {"True": True, "False": False, "1.0": 1.0, "8080.0": 8080.0}[argname]
+    good = EQUAL_KEYS[argname]
+    got = []
+    for pre in ("//h.com/p", "//u:p@h.com/p", "//[::1]/p"):
+        u = impl.URL((scheme + ":" if scheme else "") + pre)
+        first = u.with_port(good)
+        try:
+            r = u.with_port(bad)
+            got.append(("accepted", str(r)))
+        except TypeError:
+            got.append(("TypeError",))
+        except Exception as e:  # noqa: BLE001
+            got.append(("exc", type(e).__name__))
+        if first.explicit_port != good:
+            got.append(("first call wrong", first.explicit_port))
+    if any(g != ("TypeError",) for g in got):
+        acc.viol("argtype_after", (scheme, argname), observed=got, expected="TypeError every time",
+                 msg="with_port(%s) after with_port(%r) under scheme %r: %r" % (argname, good, scheme, got))
+    return tuple(got)
+
+
+CASES = {"argtype_after": case_argtype_after, "port": case_port, "invalid_text": case_invalid_text, "argtype": case_argtype, "lenient_text": case_lenient_text}
 
 
 def task_matrix(route, scheme):
@@ -299,6 +328,9 @@ def task_rejections():
         for scheme in ("http", "https", "x"):
             for a in list(BAD_ARGS) + list(GOOD_ARGS):
                 states.add(case_argtype(acc, route, scheme, a))
+    for scheme in ("http", "x", ""):
+        for a in EQUAL_KEYS:
+            states.add(case_argtype_after(acc, scheme, a))
     acc.state_count = len(states)
     acc.sample({"invalid_port_texts": INVALID_TEXT, "bad_args": list(BAD_ARGS)})
     return acc.result()
